@@ -62,13 +62,24 @@ def check(an, rep, tier):
                              'cores after the 2**(p/d) epilogue at d=%d' % d,
                              rv, None)
         # optima_tt_beam: the running matrix Q carries scale 0 at the end
+        import ast as _ast0
+        qname = None            # the array re-scaled in place by 2**p0
+        for node in _ast0.walk(prog.func('optima.optima_tt_beam').node):
+            if isinstance(node, _ast0.AugAssign) and \
+                    isinstance(node.op, _ast0.Mult) and \
+                    isinstance(node.target, _ast0.Name) and \
+                    isinstance(node.value, _ast0.BinOp) and \
+                    isinstance(node.value.op, _ast0.Pow) and \
+                    isinstance(node.value.left, _ast0.Constant) and \
+                    node.value.left.value == 2:
+                qname = node.target.id
         for vi in (0, 1):
             got = []
 
             def hook(I, fn, outs, got=got):
                 for o in outs:
-                    if o.kind == 'ret' and 'Q' in o.env:
-                        got.append(o.env['Q'])
+                    if o.kind == 'ret' and qname in o.env:
+                        got.append(o.env[qname])
             key = ('beam-hook', vi)
             from .. import interp
             I = interp.Interp(prog, {'split': dict(specs.DEFAULT_SPLIT),
@@ -84,10 +95,17 @@ def check(an, rep, tier):
     import ast as _ast
     fcs = prog.func('core.core_stab')
     okm = False
+    # the scaling reference = the variable whose log2 gives the exponent
+    ref = None
+    for node in _ast.walk(fcs.node):
+        if isinstance(node, _ast.Call) and \
+                (prog.dotted(node.func) or '').endswith('log2') and \
+                node.args and isinstance(node.args[0], _ast.Name):
+            ref = node.args[0].id
     for node in _ast.walk(fcs.node):
         if isinstance(node, _ast.Assign) and \
                 isinstance(node.targets[0], _ast.Name) and \
-                node.targets[0].id == 'v_max' and \
+                node.targets[0].id == ref and \
                 isinstance(node.value, _ast.Call):
             outer = (prog.dotted(node.value.func) or '').split('.')[-1]
             inner = node.value.args[0] if node.value.args else None
@@ -95,7 +113,7 @@ def check(an, rep, tier):
                 if isinstance(inner, _ast.Call) else (
                     'abs' if isinstance(inner, _ast.Call) else None)
             okm = outer in ('max', 'amax') and iname in ('abs', 'absolute')
-    rep.add('P-maxmod', 'core.core_stab', 'v_max = max(abs(G))',
+    rep.add('P-maxmod', 'core.core_stab', 'scaling reference = max(abs(G))',
             'ok' if okm else 'violation',
             '' if okm else 'the scaling reference must be the largest modulus '
             'of the core (maximum of the absolute values); anything else '
